@@ -26,8 +26,8 @@ echo "== demo with the change (must fail)" >> $res
 go test -vet=off -count=1 $tagarg -run 'TestSeed' ./$ddir 2>&1 | tail -15 >> $res; d=${PIPESTATUS[0]}
 rm $ddir/zz_seed_demo_test.go
 echo "== gocv check $prop on the changed tree" >> $res
-out=$(/verif/bin/gocv check --repo "$scratch" --prop "$prop" --tier quick --no-evidence 2>&1); e=$?
-echo "$out" | grep -E "^VIOLATION|^gocv:" | sed "s#$scratch#<tree>#g" | head -12 >> $res
+out=$(VERIF_REPO="$scratch" /verif/check "$prop" quick 2>&1); e=$?
+echo "$out" | grep -E "^VIOLATION|^KNOWN|^gocv:|^bounded" | sed "s#$scratch#<tree>#g" | head -12 >> $res
 echo "SUMMARY demo_unchanged_exit=$a suite_default_exit=$b suite_noasm_exit=$c demo_changed_exit=$d check_exit=$e" | tee -a $res
 if [ $a -eq 0 ] && [ $b -eq 0 ] && [ $c -eq 0 ] && [ $d -ne 0 ]; then
   mkdir -p /verif/seeded/$name; cp $src/patch.diff /verif/seeded/$name/; cp $demo /verif/seeded/$name/$(basename $demo).txt; cp $res /verif/seeded/$name/confirmation.txt
